@@ -229,6 +229,50 @@ def check(ctx):
         ok = "raises" not in pr and pr["timeout"] is not None and pr["timeout"] > 0 and pr["budget"] >= 1 and (not isinstance(N_, int) or pr["budget"] == N_) and pr["flags"]
         ctx.ob("R5", f"{m.qual}::armed", ok, f"{m.qual} builds a request with {pr}: expected a positive timeout, a retry budget of GeckoConfig.PROTOCOL_RETRY_COUNT = {N_} and a failure callback that flags it for removal", m.loc)
     ctx.floor("R5", "request builders", n_b, 9)
+    # ... and an answer that cannot be decoded does not retire the request: the engine contains the exception and the
+    # request must stay registered (it times out, is retransmitted, and the next good answer continues the chain) -
+    # a request flagged for removal by a damaged answer is dropped after ONE transmission
+    from ..symbytes import SymBytes as _SB
+    n_t = 0
+    it_t = _I(repo, max_depth=10)
+    rows = list(_c04.message_table())
+    for cname_, builder_, args_, _exp, _desc in rows:
+        if builder_ not in ("request", "full_request") or cname_ in ("GeckoPingProtocolHandler",):
+            continue
+        resp = [r for r in rows if r[0] == cname_ and r[1] == "response"]
+        if not resp:
+            continue
+        try:
+            fields = _c04._fields_in(resp[0][2], {})
+            base_ = {n: (0x21 + 13 * i) & ((1 << b) - 1) for i, (n, b) in enumerate(sorted(fields.items()))}
+            wire = _c04.wire_of(_c04.build_message(repo, it_t, cname_, "response", _c04._subst(resp[0][2], base_)), it_t)
+            wire = _SB.of(wire).concrete() if wire is not None else None
+        except (_PR, _UD):
+            continue
+        if not isinstance(wire, (bytes, bytearray)) or len(wire) < 7:
+            continue
+        rfields = _c04._fields_in(args_, {})
+        rbase = {n: (0x21 + 13 * i) & ((1 << b) - 1) or 1 for i, (n, b) in enumerate(sorted(rfields.items()))}
+        for cut in (6, len(wire) - 1):
+            try:
+                req = _c04.build_message(repo, it_t, cname_, builder_, _c04._subst(args_, rbase))
+                it_t.steps = 0
+                it_t.call(repo.method(cname_, "handle"), req, [bytes(wire[:cut]), ("10.0.0.1", 10022)])
+                continue          # decoded without complaint: not a damaged answer for this decoder
+            except _PR:
+                pass
+            except _UD as e:
+                raise AnalysisError(f"{cname_}.handle on a truncated answer: {e}")
+            n_t += 1
+            try:
+                flagged = it_t.getattr(req, "should_remove_handler")
+            except (_PR, _UD):
+                flagged = None
+            ctx.ob("R5", f"{cname_}.{builder_}::undecodable-answer-keeps-the-request::{cut}-bytes", flagged is False,
+                   f"{cname_}: an answer cut to {cut} bytes makes handle() raise (the engine logs it and goes on) and leaves should_remove_handler = {flagged!r}: "
+                   f"the clean-up retires a request that was never answered - no retransmission, the step of the handshake is lost although a later good answer was within the retry budget",
+                   repo.method(cname_, "handle").loc, sample={"rule": "R5", "class": cname_, "cut": cut})
+    ctx.floor("R5", "undecodable answers delivered to pending requests", n_t, 4)
 
     # ---- R6 removed once answered --------------------------------------------------------------------------
     EXC = {"GeckoPingProtocolHandler": "persistent ping handler", "GeckoStatusBlockProtocolHandler": "flag set by GeckoStructure on the final segment (C01.R5)",
